@@ -64,6 +64,16 @@ def structure_case(task):
         return [f"GKLS({n},{k}): construction failed: {type(e).__name__}: {e}"], 0, {}
     fn = S.p.function
     tag = f"GKLS({n},{k})"
+    # "function (n, k) is always the same function": constructed again and again in this process (with a different
+    # member in between) the tables must be bit-identical to the first construction
+    for rep in range(2, 6):
+        if rep == 4:
+            gkls.make(n, k % 100 + 1)
+        S2 = gkls.Structure(n, k)
+        if not (np.array_equal(S2.M, S.M) and np.array_equal(S2.rho, S.rho) and np.array_equal(S2.f, S.f)):
+            msgs.append(f"{tag}: construction number {rep} in this process gives different minimisers / radii / values than "
+                        f"the first (e.g. global minimiser {S2.M[1].tolist()} instead of {S.M[1].tolist()})")
+            break
     if S.M.shape != (10, n) or len(S.rho) != 10 or len(S.f) != 10:
         return [f"{tag}: expected 10 minimisers, tables have shapes {S.M.shape}, {len(S.rho)}, {len(S.f)}"], 0, {}
     if not (np.all(S.M >= -1.0) and np.all(S.M <= 1.0)):
